@@ -10,7 +10,7 @@ CHECKS = {
  "C02": ("TLC trace validation of MonCore rules C02:sleep-on-ready / due-not-dispatched / not-reported against poll(2)-measured ground truth at every wait", "4/C02"),
  "C03": ("TLC trace validation of MonCore rules C03:* (registered, current handler pointer, cookie, condition at preceding poll, once per iteration)", "4/C03"),
  "C04": ("TLC trace validation of MonCore rules C04:early/twice/oversleep under a virtual clock and simulated timerfd", "4/C04"),
- "C05": ("TLC trace validation of MonCore rule C05:order (round rule) on loop executions", "4/C05"),
+ "C05": ("TLC model checking of spec/IvTimerHeap.tla (radix-tree heap, SplitBits 1/2, all paths) + lock-step validation of the real store against it (populations crossing 128) + TLA+ order/exactly-once monitor on histories up to 17000 timers (crossing 16384) + MonCore rule C05:order on loop executions", "4/C05"),
  "C06": ("TLC trace validation of MonCore rules C06:* (exactly once, unregistered at entry, no blocking wait with a task pending, once per poll interval)", "4/C06"),
  "C07": ("TLC trace validation of MonCore rules C07:* (return iff quit or nothing registered, no poll without objects, no nesting, spin) incl. failing registrations", "4/C07"),
  "C15": ("all MonCore rules under the method x fault-plan matrix (EINTR at the k-th wait, ENOSYS/EPERM fall-backs from the 1st/k-th call)", "4/C15"),
@@ -20,6 +20,9 @@ CHECKS = {
  "C11": ("TLC model checking of spec/IvWait.tla composed with MonSig + simulated child processes (pid reuse, strangers, exit-before-fork-returns) on the real code, traces validated against MonSig rules C11:*", "4/C11"),
  "C12": ("TLC model checking of spec/IvWork.tla (exactly-once, max concurrency, no stranded work, liveness) + schedule enumeration / random schedules with 10 s time jumps on the real pool, traces validated against MonWork rules C12:*", "4/C12"),
  "C13": ("TLC model checking of spec/IvWork.tla (release only when drained, hooks paired, liveness Released) + real pool shutdown / iv_thread exit scenarios, traces validated against MonWork rules C13:*", "4/C13"),
+ "C14": ("happens-before race analysis in TLA+ (spec/TraceSync.tla: vector clocks over recorded lock / thread / descriptor synchronisation, FastTrack-style per-byte epochs) evaluated by TLC on compiler-instrumented access traces of multi-threaded scenario programs", "4/C14"),
+ "C18": ("ownership state machine spec/MonRes.tla (heap blocks, descriptors, lent user objects, tls hooks, fcntl flags) evaluated by TLC on access / acquire / release traces of the instrumented build over repeated init/use/deinit cycles and thread churn", "4/C18"),
+ "C20": ("TLC model checking of spec/IvInotify.tla composed with MonInotify (+ five model variants rejected), BFS-complete spec-generated handler-reaction programs and random scripts on real inotify, traces validated by TLC (TraceInotify)", "4/C20"),
  "C17": ("TLC model checking of spec/IvPump.tla composed with MonPump (BufSize 4, both modes, RELAY_EOF on/off), BFS-complete spec-generated environment programs + random chunkings replayed on the real pump with scripted read/write/splice results, traces validated by TLC (TracePump: MonPump verdicts + lock-step on bytes/full/saw_fin)", "4/C17"),
  "C19": ("TLC model checking of spec/IvPopen.tla (three child policies, liveness Terminates) composed with MonSig + simulated children and virtual time on the real code, traces validated against MonSig rules C19:*", "4/C19"),
 }
@@ -33,7 +36,7 @@ m = {
            "source_commits": [], "add_only": True},
  "engines": [{"name": "tlc-trace-validation", "path": "spec/TraceCore.tla", "serves_properties": sorted(CHECKS),
               "kind_free_text": "TLA+ monitors (spec/MonCore.tla, MonWork.tla, MonSig.tla via spec/TraceAll.tla) evaluated by TLC on ndjson traces recorded from the real library under the virtual kernel"},
-             {"name": "tlc-model-checking", "path": "spec/", "serves_properties": ["C08", "C09", "C10", "C11", "C12", "C13", "C17", "C19"],
+             {"name": "tlc-model-checking", "path": "spec/", "serves_properties": ["C05", "C08", "C09", "C10", "C11", "C12", "C13", "C17", "C19", "C20"],
               "kind_free_text": "TLC exhaustive model checking of the implementation-shaped system models IvEvent, IvRaw, IvWork, IvSignal, IvWait, IvPopen"}],
  "checks": [], "not_applicable": [],
  "notes": "bin/check <id> --tier quick|thorough; see DESIGN.md",
